@@ -116,22 +116,49 @@ def run_history(darsia, rng, tid, kind, dim, hist, h, payload, as_image, use_vox
 
 
 def normalize_event(darsia, rng, tid, dim):
+    """normalize(img, ref): per time step and component the integral of the result equals the reference's.  Signed integer data
+    (difference images have negative net integrals), all payload layouts; precondition: no integral of img is zero."""
     n = NATIVE[dim]
     h = [rng.choice([0.5, 0.1, 0.25]) for _ in range(dim)]
     geom, w = build_geometry(darsia, rng, rng.choice(["plain", "weighted-scalar", "weighted-array"]), dim, n, h, False)
-    def im():
-        return darsia.Image(np.array([rng.randint(1, 9) for _ in range(int(np.prod(n)))], dtype=float).reshape(n),
-                            space_dim=dim, dimensions=[h[a] * n[a] for a in range(dim)], scalar=True)
-    a, ref = im(), im()
-    before = (a.img.copy(), ref.img.copy())
-    out = geom.normalize(a, ref)
-    fresh, _ = build_geometry(darsia, random.Random(0), "plain", dim, n, h, False)
-    fresh.voxel_volume = np.prod(h) * w
-    fresh.cached_voxel_volume = fresh.voxel_volume.copy()
-    i1 = float(np.sum(out.img * np.prod(h) * w))
-    i2 = float(np.sum(ref.img * np.prod(h) * w))
-    rel = abs(i1 - i2) / max(abs(i2), 1e-300)
-    return {"tid": tid, "op": "normalize", "relexp": int(max(-17, min(3, math.ceil(math.log10(max(rel, 1e-17))))))}
+    layout = rng.choice(["scalar", "series", "vector", "vseries"])
+    tail = {"scalar": (), "series": (3,), "vector": (2,), "vseries": (3, 2)}[layout]
+    kw = dict(space_dim=dim, dimensions=[h[a] * n[a] for a in range(dim)], scalar=layout in ("scalar", "series"))
+    if layout in ("series", "vseries"):
+        kw.update(series=True, time=[0, 1, 2])
+    wfull = w.reshape(tuple(n) + (1,) * len(tail))
+
+    def integrals(arr):
+        return [int(round(x)) for x in np.sum(arr * wfull, axis=tuple(range(dim))).ravel()]
+
+    def im(sign):
+        for _ in range(50):
+            arr = np.array([rng.randint(-9, 9) if sign else rng.randint(1, 9) for _ in range(int(np.prod(list(n) + list(tail))))], dtype=float).reshape(tuple(n) + tail)
+            if all(i != 0 for i in integrals(arr)):
+                return arr
+        raise MachineryError("no admissible normalize scenario")
+
+    signed = rng.random() < 0.8
+    a_arr, r_arr = im(signed), im(signed)
+    a, ref = darsia.Image(a_arr.copy(), **kw), darsia.Image(r_arr.copy(), **kw)
+    e = {"tid": tid, "op": "normalize", "layout": layout, "ia": integrals(a_arr), "iref": integrals(r_arr), "raised": 0, "relexp": [], "ratioexp": []}
+    try:
+        out, ratio = geom.normalize(a, ref, return_ratio=True)
+    except Exception as ex:  # noqa
+        e["raised"] = 1
+        e["error"] = repr(ex)[:200]
+        return e
+    vol = float(np.prod(h))
+    i_out = np.sum(out.img * wfull, axis=tuple(range(dim))).ravel()
+    ratio = np.broadcast_to(np.asarray(ratio, dtype=float), np.zeros(tail).shape).ravel() if tail else np.atleast_1d(np.asarray(ratio, dtype=float))
+
+    def ex10(rel):
+        return int(max(-17, min(3, math.ceil(math.log10(max(rel, 1e-17))))))
+
+    for k in range(len(e["ia"])):
+        e["relexp"].append(ex10(abs(i_out[k] - e["iref"][k]) / abs(e["iref"][k])))
+        e["ratioexp"].append(ex10(abs(ratio[k] * e["ia"][k] - e["iref"][k]) / abs(e["iref"][k])))
+    return e
 
 
 def run(ck, replay=None):
@@ -171,7 +198,7 @@ def run(ck, replay=None):
         tid = f"h{i}"
         info[tid] = c
         events += run_history(darsia, rng, tid, c[0], c[1], c[2], c[3], c[4], c[5], c[6])
-    for i in range(4 if quick else 20):
+    for i in range(12 if quick else 80):
         events.append(normalize_event(darsia, rng, f"norm{i}", rng.choice([1, 2, 3])))
     bad = ck.validate("Trace_Geometry", "Trace.cfg", events, weight=lambda e: 5 + len(e.get("w", [])) * max(1, len(e.get("data", []))), budget=40000)
     for b in bad:
